@@ -274,10 +274,11 @@ def lint_model(r):
         local_names = ['a', 'b', 'p', 'q', 'x']
         # local variables may hold function values and be called (a call is a use of the name)
         callables = later + ['systemLog'] + (['a', 'u'] if r.random() < 0.5 else [])
-        body = rstmts(r, r.randint(0, 9), local_names + (['systemLog'] + later if r.random() < 0.3 else []), ['a', 'b', 'p', 'u'],
+        body = rstmts(r, r.randint(0, 9), local_names + (['systemLog'] + later if r.random() < 0.3 else []), ['a', 'b', 'p', 'u'] + ([''] if r.random() < 0.15 else []),
                       labels + ['H'], callables, True)
         fns.append(['function', name, args, False, r.random() < 0.2, body])
-    body = rstmts(r, r.randint(0, 14), ['x', 'y'], ['x', 'y'], labels, [f[1] for f in fns] + ['hh'], False)
+    # (the empty string is a schema-valid variable name: an assignment to it is an assignment, not a pointless statement)
+    body = rstmts(r, r.randint(0, 14), ['x', 'y'], ['x', 'y'] + ([''] if r.random() < 0.15 else []), labels, [f[1] for f in fns] + ['hh'], False)
     # functions first (mostly), sometimes interleaved
     out = list(body)
     for f in fns:
